@@ -98,11 +98,34 @@ def run_cases(run_case, descs, *, deadline=120, chunk_size=None, nproc=None, pro
     os.makedirs(sdir)
     results = {}
     running = {}  # pid -> (chunk, path, t_start, attempt)
-    serial = 0
     retry = []  # (chunk, attempt)
     sys.stdout.flush()
     sys.stderr.flush()
     last_print = time.monotonic()
+
+    def _term(signum, frame):  # a killed driver must not leave worker process groups behind
+        raise SystemExit(143)
+
+    old_term = signal.signal(signal.SIGTERM, _term)
+    try:
+        return _loop(run_case, chunks, retry, running, results, nproc, sdir, deadline, n, progress, last_print)
+    finally:
+        signal.signal(signal.SIGTERM, old_term)
+        for p in list(running):
+            for sig_target in (p,):
+                try:
+                    os.killpg(sig_target, signal.SIGKILL)
+                except (ProcessLookupError, PermissionError):
+                    pass
+        try:
+            import shutil
+            shutil.rmtree(sdir, ignore_errors=True)
+        except Exception:
+            pass
+
+
+def _loop(run_case, chunks, retry, running, results, nproc, sdir, deadline, n, progress, last_print):
+    serial = 0
     while chunks or running or retry:
         while (chunks or retry) and len(running) < nproc:
             if retry:
@@ -160,11 +183,6 @@ def run_cases(run_case, descs, *, deadline=120, chunk_size=None, nproc=None, pro
                                         "reason": f"worker died twice (wait status {status})"}
             if rest:
                 retry.append((rest, 0))
-    try:
-        import shutil
-        shutil.rmtree(sdir, ignore_errors=True)
-    except Exception:
-        pass
     return [results.get(i, {"idx": i, "status": "harness_error", "reason": "lost"}) for i in range(n)]
 
 
